@@ -927,7 +927,7 @@ func runRemuxOutScenario(sc *roScenario, tw *TraceWriter, tmp string) {
 			ev := M{"ev": "End", "panic": ""}
 			ev["panic"] = protect(func() { g.DelRtmpPubSession(pub) })
 			ev["out"] = drainAll()
-			hl := M{"frames": []M{}, "pat": 0, "pmt": 0, "streams": [][2]int{}, "bad": []string{}, "segs": 0}
+			hl := M{"frames": []M{}, "pat": 0, "pmt": 0, "streams": [][2]int{}, "bad": []string{}, "segs": 0, "on": false}
 			if sc.Cfg.Hls {
 				op := hls.PathStrategy.GetMuxerOutPath(hlsRoot, stream)
 				pl, err := os.ReadFile(hls.PathStrategy.GetLiveM3u8FileName(op, stream))
@@ -954,6 +954,7 @@ func runRemuxOutScenario(sc *roScenario, tw *TraceWriter, tmp string) {
 				hv, ha := 0, 0
 				hl = roFrames(w, dm, &hv, &ha, partial)
 				hl["segs"] = segs
+				hl["on"] = true
 				os.RemoveAll(hlsRoot)
 			}
 			ev["hls"] = hl
